@@ -992,6 +992,10 @@ func genC04(t *rapid.T) c04Case {
 		c.NReq, c.NResp = rapid.IntRange(0, 2).Draw(t, "sdnreq"), rapid.IntRange(0, 2).Draw(t, "sdnresp")
 		// a fraction of a millisecond on top of whole ones: the timeout header is cut to whole units
 		c.DeadlineUs = rapid.IntRange(3, 30).Draw(t, "sdms")*1000 + rapid.SampledFrom([]int{0, 500, 950}).Draw(t, "sdus")
+		if rapid.IntRange(0, 4).Draw(t, "sdsubms") == 0 {
+			// a budget that is nearly used up when the call is made: less than a millisecond is still a deadline
+			c.DeadlineUs = rapid.SampledFrom([]int{200, 600, 950}).Draw(t, "sdsubmsus")
+		}
 		c.ServerLimit = rapid.IntRange(0, 2).Draw(t, "serverlimit") == 0
 		c.OpenReq = clientStreaming(c.Kind) && rapid.Bool().Draw(t, "openreq")
 		return c
